@@ -856,22 +856,35 @@ func c12DeadDestinationJob(tier string) *SeqJob {
 		if !deadFirst {
 			addrs = []string{good.addr, dead.LocalAddr().String()}
 		}
-		r, err := m3.NewReporter(m3.Options{HostPorts: addrs, Service: "svc", Env: "test", Protocol: m3Proto(kind), MaxQueueSize: 64, MaxPacketSizeBytes: limit})
-		if err != nil {
-			return "new-reporter", err.Error(), 0
-		}
 		var dgs [][]byte
-		for i := 0; i < n; i++ {
-			r.AllocateCounter(fmt.Sprintf("u.metric.%04d", i), map[string]string{"k": "some-value"}).ReportCount(int64(i + 1))
-			if flushEvery > 0 && i%flushEvery == flushEvery-1 {
-				r.Flush()
+		var rcl, rdet string
+		caseHorizon = 20000000
+		defer func() { caseHorizon = 0 }()
+		// (under the controlled scheduler: a panic in the reporter's own goroutine is a violation, not a dead worker)
+		ccl, cdet := controlledCase(0, func() {
+			r, err := m3.NewReporter(m3.Options{HostPorts: addrs, Service: "svc", Env: "test", Protocol: m3Proto(kind), MaxQueueSize: 64, MaxPacketSizeBytes: limit})
+			if err != nil {
+				rcl, rdet = "new-reporter", err.Error()
+				return
 			}
-			if i%64 == 63 {
-				dgs = good.readAvailable(dgs)
+			for i := 0; i < n; i++ {
+				r.AllocateCounter(fmt.Sprintf("u.metric.%04d", i), map[string]string{"k": "some-value"}).ReportCount(int64(i + 1))
+				if flushEvery > 0 && i%flushEvery == flushEvery-1 {
+					r.Flush()
+				}
+				if i%64 == 63 {
+					dgs = good.readAvailable(dgs)
+				}
 			}
+			if err := r.Close(); err != nil {
+				rcl, rdet = "close-error", err.Error()
+			}
+		})
+		if ccl != "" {
+			return ccl, fmt.Sprintf("[%s, dead destination first=%v, %d metrics, flush every %d] %s", kind, deadFirst, n, flushEvery, cdet), n
 		}
-		if err := r.Close(); err != nil {
-			return "close-error", err.Error(), n
+		if rcl != "" {
+			return rcl, rdet, n
 		}
 		where := fmt.Sprintf("[%s, dead destination %s, %d metrics, flush every %d]", kind, map[bool]string{true: "first", false: "last"}[deadFirst], n, flushEvery)
 		seen := map[int64]int{}
@@ -898,7 +911,7 @@ func c12DeadDestinationJob(tier string) *SeqJob {
 	if tier == "thorough" {
 		sizes = append(sizes, 400, 1000)
 	}
-	j := &SeqJob{Property: "C12", Name: "packet-limit-with-a-dead-destination", NoBonus: true}
+	j := &SeqJob{Property: "C12", Name: "packet-limit-with-a-dead-destination", NoBonus: true, Controlled: true}
 	j.Run = func(ctx *SeqCtx) {
 		for _, kind := range []string{"compact", "binary"} {
 			for _, df := range []bool{true, false} {
